@@ -96,6 +96,7 @@ type path struct {
 	opaqueN     int
 	decided     map[*Term]bool
 	races       map[string]bool
+	envVars     map[string]bool
 	obsVals     [][]value
 	obsTags     []string
 	obsStrs     []string
@@ -433,10 +434,7 @@ func (i *interpreter) assert(c *Term, label, knownID string) {
 
 func (i *interpreter) reportViolation(kind, label, knownID, msg string, m Model) {
 	p := i.p
-	vec := make([]uint64, len(p.vars))
-	for k, v := range p.vars {
-		vec[k] = m[v.name] & maskB(v.w)
-	}
+	vec := p.replayVec(m)
 	v := violation{Harness: i.w.ex.cfg.Func, Label: label, KnownID: knownID, Kind: kind, Msg: msg, Vec: vec,
 		Decisions: append([]decision(nil), p.decisions...)}
 	p.violations = append(p.violations, v)
@@ -485,10 +483,7 @@ func (e *explorer) merge(p *path, w *worker, outcome string, steps int64) {
 		e.reached[l]++
 	}
 	if (outcome == "ok") && p.obsOK && len(p.violations) == 0 && len(p.inconclusive) == 0 {
-		vec := make([]uint64, len(p.vars))
-		for k, v := range p.vars {
-			vec[k] = p.model[v.name] & maskB(v.w)
-		}
+		vec := p.replayVec(p.model)
 		vc := valCase{Vec: vec, Sched: schedOf(p.decisions), Outcome: "ok", Observed: p.obsStrs}
 		e.valSeen++
 		limit := e.cfg.valLimit()
@@ -534,3 +529,16 @@ func sortedKeys(m map[string]int) []string {
 }
 
 var progress = os.Getenv("GOSYMEX_PROGRESS") != ""
+
+// replayVec is the nondet vector of the harness's own v* calls under model m (values drawn
+// by environment stubs are left out).
+func (p *path) replayVec(m Model) []uint64 {
+	vec := make([]uint64, 0, len(p.vars))
+	for _, v := range p.vars {
+		if p.envVars[v.name] {
+			continue
+		}
+		vec = append(vec, m[v.name]&maskB(v.w))
+	}
+	return vec
+}
